@@ -78,7 +78,7 @@ class ReaderRunner:
             if impl is None:
                 return [False] * len(lines)
             model, _ = run.run_model(lines)
-            return [engine.project(o, self.keep_growth) != engine.project(m, self.keep_growth) for o, m in zip(impl, model)]
+            return [engine.differ(o, m, self.keep_growth) for o, m in zip(impl, model)]
         try:
             return engine.shrink_case(case, differs)
         except Exception:
@@ -112,6 +112,15 @@ def hist(positions, err_fields, sets, fmt=None):
             return None
         return oracles.history_oracle(case, toks, items, positions=positions, err_fields=err_fields, sets=sets)
     return f
+
+
+def seek_any_state(case, toks, log, items):
+    """C05: failure-free cases by the abstract reader; cases with injected failures or refusing policies by the
+    clause 'a successful seek to a record position restores the stream from any reader state'"""
+    if ('f' in case['script'] or case['seekfails'] != '-' or
+            any(oracles.strip_growth(t).startswith(('E:io', 'E:bl')) for t in toks)):
+        return oracles.seek_restores_oracle(case, toks, items)
+    return oracles.history_oracle(case, toks, items, positions=True, err_fields=True, sets=True)
 
 
 def cfg_hist(case, toks, log, items):
@@ -185,11 +194,13 @@ PROPS['C04'] = dict(
 PROPS['C05'] = dict(
     theorems=[],
     runner=ReaderRunner(
-        quick=[('fa_seek', 8000), ('fq_seek', 8000), ('fa_exh', 4)],
-        thorough=[('fa_seek', 150000), ('fq_seek', 150000), ('fa_exh', 6), ('fq_exh', 6)],
-        oracle=hist(True, True, True)),
+        quick=[('fa_seek', 8000), ('fq_seek', 8000), ('fa_exh', 4), ('fa_fault', 6000), ('fq_fault', 6000)],
+        thorough=[('fa_seek', 150000), ('fq_seek', 150000), ('fa_exh', 6), ('fq_exh', 6), ('fa_fault', 150000), ('fq_fault', 150000)],
+        oracle=seek_any_state),
     rule='histories with position captures and seeks to captured and indexed record positions (capacities around the seek '
-         'distance so that both the in-buffer shortcut and the real seek occur); positions compared with the true coordinates of S',
+         'distance so that both the in-buffer shortcut and the real seek occur); positions compared with the true coordinates of S; '
+         'histories with injected read / seek failures and refusing policies: every seek that succeeds afterwards must restore the '
+         'stream (reads return the target record and its successors)',
     assumptions=ASSUME_READER,
 )
 
@@ -207,13 +218,19 @@ PROPS['C06'] = dict(
 PROPS['C09'] = dict(
     theorems=[],
     runner=ReaderRunner(
-        quick=[('fa_rand', 10000), ('fq_rand', 10000), ('fa_fault', 4000), ('fq_fault', 4000)],
-        thorough=[('fa_rand', 200000), ('fq_rand', 200000), ('fa_hist', 50000), ('fq_hist', 50000), ('fa_fault', 50000), ('fq_fault', 50000)],
+        quick=[('fa_rand', 10000), ('fq_rand', 10000), ('fa_fault', 4000), ('fq_fault', 4000), ('pol', 3000)],
+        thorough=[('fa_rand', 200000), ('fq_rand', 200000), ('fa_hist', 50000), ('fq_hist', 50000), ('fa_fault', 50000), ('fq_fault', 50000),
+                  ('pol', 100000)],
         oracle=growth, keep_growth=True),
     rule='recording policies (built-in, slowly growing, table-driven, refusing); request log compared exactly with the model '
-         'and checked: chain of capacities, buffer-limit iff refused, request only when the record being parsed does not fit',
+         'and checked: chain of capacities, buffer-limit iff refused, request only when the record being parsed does not fit; '
+         'the built-in policies asked directly with capacities around their thresholds and limits (0..3, t-2..t+2, l-t-2..l+2, 2^23 +- 2, 2^40) '
+         'and compared with the model and with the documented arithmetic',
     assumptions=ASSUME_READER,
 )
+_c09 = PROPS['C09']['runner']
+_c09_base = _c09.raw_oracle
+_c09.raw_oracle = lambda c, o, s: oracles.policy_direct_oracle(c, o) if c.startswith('Q ') else _c09_base(c, o, s)
 
 
 class SimpleRunner(ReaderRunner):
@@ -525,11 +542,14 @@ PROPS['C14'] = dict(
 PROPS['C17'] = dict(
     theorems=[],
     runner=ReaderRunner(
-        quick=[('fq_exh', 5), ('fa_exh', 5), ('fq_rand', 15000), ('fa_rand', 5000), ('fq_cfg', 1000)],
-        thorough=[('fq_exh', 7), ('fa_exh', 7), ('fq_rand', 300000), ('fa_rand', 100000), ('fq_cfg', 30000), ('fa_cfg', 30000)],
+        quick=[('fq_exh', 5), ('fa_exh', 5), ('fq_rand', 15000), ('fa_rand', 5000), ('fq_cfg', 1000), ('fq_hist', 8000), ('fa_hist', 3000)],
+        thorough=[('fq_exh', 7), ('fa_exh', 7), ('fq_rand', 300000), ('fa_rand', 100000), ('fq_cfg', 30000), ('fa_cfg', 30000),
+                  ('fq_hist', 150000), ('fa_hist', 50000), ('fq_seek', 50000)],
         oracle=errpos),
     rule='malformed inputs (exhaustive small strings, mutated files) at all capacities: error kind and every field compared with S, '
-         'message text compared byte-exactly with the model of Display and checked to contain the reported values',
+         'message text compared byte-exactly with the model of Display and checked to contain the reported values; the same through '
+         'every read path (histories of single reads, owned reads, plain and exact-count record-set reads on three live sets: the error '
+         'a set read reports for an invalid record that follows valid ones in the same batch)',
     assumptions=ASSUME_READER,
 )
 
@@ -556,7 +576,7 @@ _req = _json.load(open(_os.path.join(run.LEAN, 'REQUIRED_THEOREMS.json')))
 
 
 def alloc(case, toks, log, items):
-    return oracles.alloc_oracle(case, toks)
+    return oracles.alloc_oracle(case, toks, log, items)
 
 
 def jsonrt(case, toks, log, items):
@@ -566,12 +586,19 @@ def jsonrt(case, toks, log, items):
 PROPS['C18'] = dict(
     theorems=[],
     runner=ReaderRunner(
-        quick=[('fa_alloc', 400), ('fq_alloc', 400)], thorough=[('fa_alloc', 8000), ('fq_alloc', 8000)],
-        oracle=alloc),
-    rule='files of 12-40 records of one shape, capacities from 3 records to 64 KiB, next() / one reused record set / two alternating '
-         'record sets; a counting global allocator measures every reader call; after a warm-up of four operations every read of a '
-         'record (or of a batch no larger than one seen before) must allocate nothing and make no growth request',
-    assumptions=ASSUME_READER + ['allocation counts are those of the harness build (opt-level 2); Vec growth and the allocator are runtime behaviour, observed not proved'],
+        quick=[('fa_alloc', 400), ('fq_alloc', 400), ('fa_amix', 1500), ('fq_amix', 1500), ('fa_ahist', 2500), ('fq_ahist', 2500)],
+        thorough=[('fa_alloc', 8000), ('fq_alloc', 8000), ('fa_amix', 40000), ('fq_amix', 40000), ('fa_ahist', 80000), ('fq_ahist', 80000),
+                  ('fa_afault', 40000), ('fq_afault', 40000)],
+        oracle=alloc, keep_growth=True),
+    rule='a counting global allocator (the harness\'s own byte source and recording policy excluded) measures every next() / '
+         'read_record_set(_exact) / seek() call; the number of allocator calls and the capacity of the record set\'s buffer afterwards '
+         '(buf_capacity()) are compared EXACTLY with what the ghost-capacity model (Model/Alloc.lean) predicts, on files of 12-40 records of one '
+         'shape, on files whose records differ widely in size and number of lines (capacities from "largest record just fits" upwards), '
+         'and on arbitrary reader histories (single reads, three live record sets, exact-count reads, seeks, shrink_buffer_to_fit, '
+         'policy changes); the model leaves the count open only for calls that return an error, make a policy request or build an owned record. '
+         'Independently of the model: policy requests only for records that do not fit; one-shape files allocate nothing after a warm-up; '
+         'a single read of a record with no more lines than an earlier one allocates nothing',
+    assumptions=ASSUME_READER + ['allocation counts are those of the harness build (opt-level 2); Vec\'s growth rule (RawVec::grow_amortized) and the allocator are modelled and observed, not verified'],
 )
 PROPS['C19'] = dict(
     theorems=[],
@@ -585,12 +612,16 @@ PROPS['C19'] = dict(
 )
 PROPS['C20'] = dict(
     theorems=[],
-    runner=SimpleRunner(quick=[('iter', 7), ('fa_zero', 1500), ('fq_zero', 1500)], thorough=[('iter', 11), ('fa_zero', 40000), ('fq_zero', 40000)],
-                        raw_oracle=lambda c, o, s: oracles.fused_oracle(c, o, s) if c.startswith('F ') else oracles.iter_oracle(c, o, s),
+    runner=SimpleRunner(quick=[('iter', 7), ('fa_zero', 1500), ('fq_zero', 1500), ('fa_hist', 3000), ('fq_hist', 3000)],
+                        thorough=[('iter', 11), ('fa_zero', 40000), ('fq_zero', 40000), ('fa_hist', 60000), ('fq_hist', 60000)],
+                        raw_oracle=lambda c, o, s: oracles.fused_oracle(c, o, s) if c.startswith('F ') else
+                        (oracles.recset_iter_oracle(c, o, s) if c.startswith('R ') else oracles.iter_oracle(c, o, s)),
                         exact_kinds=('I',)),
     rule='records with 0-5 sequence lines x every word over {front, back} up to length 7 (thorough: 11) on one seq_lines() iterator, '
          'len() and size_hint() after every step; enumerate().rev() (also after advancing), rev, zip, skip, collect; record-set '
-         'iterators and owned-record iterators of both formats driven past their end; owned/next iteration over sources that report '
+         'iterators and owned-record iterators of both formats driven past their end; the iterator of every record set that a '
+         'random reader history dumps (reused sets, sets refilled with fewer records than before, sets left behind by errors) driven '
+         'step by step: size hint brackets the remaining count, item count = len(), fused; owned/next iteration over sources that report '
          'Ok(0) and deliver data later (fusedness; no model involved)',
     assumptions=[],
 )
